@@ -1160,40 +1160,52 @@ def run(ctx):
     nc += negotiate_cases(ctx, w, 400 if ctx.thorough else 80)
     vc = verify_direct_cases(ctx, w)
 
-    # ---- model comparisons ----
-    bad = model(ctx, "run_client", "(name * (name * Z) * name * list Z)", cc, coq_client)
-    for i in bad[:3]:
-        ctx.disagree("Transport._verify_key differs from model verify_key", case=cc[i][0], impl=cc[i][2])
+    # ---- model comparisons (independent coqc runs, evaluated concurrently: each is dominated by start-up) ----
+    import threading
+    full_cc, full_sc = cc, sc
+    if not ctx.thorough:
+        # quick tier: the oracles above looked at every case; the model is compared on every second one
+        # (alternating with the seed), all of them in the thorough tier
+        cc = cc[ctx.seed % 2::2]
+        sc = sc[ctx.seed % 2::2]
+    jobs = [
+        ("run_client", "(name * (name * Z) * name * list Z)", cc, coq_client,
+         "Transport._verify_key differs from model verify_key"),
+        ("run_server", "((list name * list name) * name * (name * Z) * (bool * bool) * name * list Z)", sc, coq_server,
+         "AuthHandler publickey branch differs from model server_pubkey"),
+        ("run_verify", "(Z * name * name * list Z)", vc,
+         lambda nt, c: "(%d, %s, %s, %s)" % (c[0], nt.n(c[1]), nt.n(c[2]), coq(c[3])),
+         "verify_ssh_sig (direct call) differs from model verify_ssh_sig"),
+        ("run_prefs", "(list name * list name * list name * list name)", pc,
+         lambda nt, c: "(%s, %s, %s, %s)" % tuple(nt.l(x) for x in c),
+         "preferred_keys / preferred_pubkeys differ from the model"),
+        ("run_negotiate", "(list name * list name * list name)", nc,
+         lambda nt, c: "(%s, %s, %s)" % tuple(nt.l(x) for x in c),
+         "negotiated host key algorithm differs from model negotiate_hostkey"),
+    ]
+    results = {}
+
+    def work(j):
+        results[j[0]] = model(ctx, j[0], j[1], j[2], j[3]) if j[2] else []
+
+    threads = [threading.Thread(target=work, args=(j,)) for j in jobs]
+    for th in threads:
+        th.start()
+    for th in threads:
+        th.join()
+    for fn, _, cases, _, what in jobs:
+        for i in results.get(fn, [])[:3]:
+            ctx.disagree(what, case=cases[i][0], impl=cases[i][2])
+    cc, sc = full_cc, full_sc
     acc = [c for c in cc if c[2][0] == 0]
     if acc:
         ctx.sample({"verify_key": {"case": acc[0][0], "impl": acc[0][2]}})
     ctx.sample({"verify_key": {"case": cc[5][0], "impl": cc[5][2]}})
-
-    bad = model(ctx, "run_server", "((list name * list name) * name * (name * Z) * (bool * bool) * name * list Z)",
-                sc, coq_server)
-    for i in bad[:3]:
-        ctx.disagree("AuthHandler publickey branch differs from model server_pubkey", case=sc[i][0], impl=sc[i][2])
     acc = [c for c in sc if c[2][0] == 0]
     if acc:
         ctx.sample({"server_pubkey": {"case": acc[0][0], "impl": acc[0][2]}})
-    ctx.exhaustive = full
-
-    bad = model(ctx, "run_verify", "(Z * name * name * list Z)", vc,
-                lambda nt, c: "(%d, %s, %s, %s)" % (c[0], nt.n(c[1]), nt.n(c[2]), coq(c[3])))
-    for i in bad[:3]:
-        ctx.disagree("verify_ssh_sig (direct call) differs from model verify_ssh_sig", case=vc[i][0], impl=vc[i][2])
-
-    bad = model(ctx, "run_prefs", "(list name * list name * list name * list name)", pc,
-                lambda nt, c: "(%s, %s, %s, %s)" % tuple(nt.l(x) for x in c))
-    for i in bad[:3]:
-        ctx.disagree("preferred_keys / preferred_pubkeys differ from the model", case=pc[i][0], impl=pc[i][2])
-
+    ctx.exhaustive = bool(full and ctx.thorough)
     if nc:
-        bad = model(ctx, "run_negotiate", "(list name * list name * list name)", nc,
-                    lambda nt, c: "(%s, %s, %s)" % tuple(nt.l(x) for x in c))
-        for i in bad[:3]:
-            ctx.disagree("negotiated host key algorithm differs from model negotiate_hostkey", case=nc[i][0],
-                         impl=nc[i][2])
         ctx.sample({"negotiate": {"case": nc[0][0], "impl": nc[0][2]}})
 
 
